@@ -5584,6 +5584,23 @@ class NetCDFRead(IORead):
                         attribute = "bounds_tie_points"
         elif geometry_nodes:
             attribute = "nodes"
+        elif ncvar is not None:
+            # The bounds variable has been given explicitly (from
+            # the formula_terms attribute of a parametric coordinate
+            # variable's bounds). If the variable also has its own
+            # bounds attribute that names another variable then check
+            # it, so that a broken reference is reported. The
+            # explicitly given bounds are used in any case.
+            own_bounds_ncvar = properties.get("bounds")
+            if own_bounds_ncvar and g["has_groups"]:
+                own_bounds_ncvar = g["flattener_variables"].get(
+                    own_bounds_ncvar, own_bounds_ncvar
+                )
+
+            if own_bounds_ncvar and own_bounds_ncvar != bounds_ncvar:
+                self._check_bounds(
+                    parent_ncvar, ncvar, "bounds", own_bounds_ncvar
+                )
 
         # Make sure that the bounds attribute is removed
         properties.pop(attribute, None)
